@@ -422,3 +422,59 @@ M("C04", "uri-recover-after-last-slash-by-index", F, _R_URI, "                da
 M("C04", "body-recover-stripped", F, "                data = http.body\n", "                data = http.body.strip()\n", "C04.R9")
 M("C04", "header-recover-after-equals-sign", F, "                data = http.headers[step_val]\n", "                data = http.headers[step_val].split(b\"=\", 1)[-1]\n", "C04.R9")
 M("C04", "parameter-recover-plus-as-space", F, "                data = http.params[step_val]\n", "                raw = http.params[step_val]\n                data = raw.replace(b\"+\", b\" \")\n", "C04.R9")
+
+# ------------------------------------------------------------------------------------------------ recovered blocks kept in a keyed container (R7)
+# the three result locals become entries of one dict; the constructor receives them as **mapping, as keyword reads of
+# the entries, or the locals are passed through a dict display; the store may be spelled as update({k: v})
+_R_VARS = "        build_metadata = None\n        build_output = None\n        build_id = None\n"
+_R_BUILD = (
+    "                if step_val == \"output\":\n"
+    "                    build_output = data\n"
+    "                elif step_val == \"id\":\n"
+    "                    build_id = data\n"
+    "                elif step_val == \"metadata\":\n"
+    "                    build_metadata = data\n"
+)
+_R_DICT_INIT = "        blocks = {\"metadata\": None, \"output\": None, \"id\": None}\n"
+_R_DICT_STORE = "                if step_val in (\"metadata\", \"output\", \"id\"):\n                    blocks[step_val] = data\n"
+_R_DICT_RET = "        result_type = ClientC2Data if isinstance(http, HttpRequest) else ServerC2Data\n        return result_type(**blocks)\n"
+_R_DICT_READS = (
+    "        if isinstance(http, HttpRequest):\n"
+    "            return ClientC2Data(output=blocks[\"output\"], id=blocks.get(\"id\"), metadata=blocks[\"metadata\"])\n"
+    "        return ServerC2Data(blocks[\"output\"], blocks[\"metadata\"], blocks[\"id\"])\n"
+)
+_R_DISPLAY_RET = (
+    "        fields = {\"output\": build_output, \"id\": build_id, \"metadata\": build_metadata}\n"
+    "        if isinstance(http, HttpRequest):\n"
+    "            return ClientC2Data(**fields)\n"
+    "        return ServerC2Data(**fields)\n"
+)
+
+
+def _dict_blocks(store=_R_DICT_STORE, ret=_R_DICT_RET, init=_R_DICT_INIT):
+    return [(F, _R_VARS, init), (F, _R_BUILD, store), (F, _R_RET, ret)]
+
+
+T("C04", "twin-recover-dict-splat", F, "", "", edits=_dict_blocks())
+T("C04", "twin-recover-dict-splat-copy", F, "", "", edits=_dict_blocks(ret=_R_DICT_RET.replace("(**blocks)", "(**dict(blocks))")))
+T("C04", "twin-recover-dict-update-store", F, "", "", edits=_dict_blocks(store=_R_DICT_STORE.replace("blocks[step_val] = data", "blocks.update({step_val: data})")))
+T("C04", "twin-recover-dict-keyword-reads", F, "", "", edits=_dict_blocks(ret=_R_DICT_READS))
+T("C04", "twin-recover-dict-starts-empty", F, "", "", edits=_dict_blocks(init="        blocks = {}\n"))
+T("C04", "twin-recover-display-splat", F, _R_RET, _R_DISPLAY_RET)
+# the payload goes into an attribute chosen by name: the store is not located (undecided), never a false alarm
+T("C04", "twin-recover-attribute-store", F, "", "", edits=[
+    (F, _CLASS, "class _Blocks:\n    output = None\n    id = None\n    metadata = None\n\n\n" + _CLASS),
+    (F, _R_VARS, "        blocks = _Blocks()\n"),
+    (F, _R_BUILD, "                if step_val in (\"metadata\", \"output\", \"id\"):\n                    setattr(blocks, step_val, data)\n"),
+    (F, _R_RET, "        result_type = ClientC2Data if isinstance(http, HttpRequest) else ServerC2Data\n        return result_type(output=blocks.output, id=blocks.id, metadata=blocks.metadata)\n"),
+])
+M("C04", "dict-splat-selector-not-stored", F, "", "", "C04.R7", edits=_dict_blocks(store=_R_DICT_STORE.replace("(\"metadata\", \"output\", \"id\")", "(\"output\", \"id\")")))
+M("C04", "dict-store-key-redirected", F, "", "", "C04.R7",
+  edits=_dict_blocks(store=_R_DICT_STORE.replace("blocks[step_val] = data", "blocks[\"id\" if step_val == \"metadata\" else step_val] = data")))
+M("C04", "dict-store-truncated-payload", F, "", "", "C04.R7", edits=_dict_blocks(store=_R_DICT_STORE.replace("= data\n", "= data[:-1]\n")))
+M("C04", "dict-splat-class-swapped", F, "", "", "C04.R7", edits=_dict_blocks(ret=_R_DICT_RET.replace("ClientC2Data if isinstance(http, HttpRequest) else ServerC2Data", "ServerC2Data if isinstance(http, HttpRequest) else ClientC2Data")))
+M("C04", "dict-keyword-reads-crossed", F, "", "", "C04.R7", edits=_dict_blocks(ret=_R_DICT_READS.replace("output=blocks[\"output\"], id=blocks.get(\"id\")", "output=blocks[\"id\"], id=blocks.get(\"output\")")))
+M("C04", "dict-positional-reads-crossed", F, "", "", "C04.R7", edits=_dict_blocks(ret=_R_DICT_READS.replace("(blocks[\"output\"], blocks[\"metadata\"], blocks[\"id\"])", "(blocks[\"output\"], blocks[\"id\"], blocks[\"metadata\"])")))
+M("C04", "dict-splat-of-other-mapping", F, "", "", "C04.R7", edits=_dict_blocks(ret="        fresh = {\"metadata\": None, \"output\": None, \"id\": None}\n" + _R_DICT_RET.replace("(**blocks)", "(**fresh)")))
+M("C04", "display-splat-crossed", F, _R_RET, _R_DISPLAY_RET.replace("\"output\": build_output, \"id\": build_id", "\"output\": build_id, \"id\": build_output"), "C04.R7")
+M("C04", "display-splat-drops-metadata", F, _R_RET, _R_DISPLAY_RET.replace(", \"metadata\": build_metadata", ""), "C04.R7")
